@@ -27,7 +27,7 @@ Hypothesis core_step : CoreStep.
 Hypothesis tree_step : TreeStep.
 
 Theorem inv_step o w r w' :
-  TreeInv w -> FilesInv T w -> Pending10 T w o = false -> Known10 w o = false -> Unowned w o = false ->
+  TreeInv w -> FilesInv T w -> RootNamedLast T w o = false -> Known10 w o = false -> Unowned w o = false ->
   run o w = Val (r, w') -> FilesInv T w'.
 Proof.
   intros TI FI HP HK HU H. pose proof TI as (C & _).
@@ -37,7 +37,7 @@ Qed.
 
 (* ---------- histories ---------- *)
 Definition step_ok (w : world) (o : op) : bool :=
-  negb (Known T tab_el tab_en check_fn LATEST root_attrs w o) && negb (Pending10 T w o) && negb (Known10 w o) && negb (Unowned w o).
+  negb (Known T tab_el tab_en check_fn LATEST root_attrs w o) && negb (RootNamedLast T w o) && negb (Known10 w o) && negb (Unowned w o).
 
 Fixpoint steps_ok (l : list op) (w : world) : bool :=
   match l with
